@@ -389,9 +389,36 @@ def run(ctx, n):
     ctx.run_hypothesis(cases(), check, n)
 
 
+def run_many(ctx, n):
+    """Volumes of thousands of tiny chunks spread over more than a thousand
+    shard files (every shard receives chunks from several z-slabs, far apart
+    in write order), and volumes of more than 65536 chunks."""
+    shapes = [([2050, 1, 2], [0, 11, 2]), ([41, 41, 41], [1, 12, 0]),
+              ([1300, 2, 3], [0, 11, 1])]
+    for k, (shape, bits) in enumerate(shapes[:max(1, n)]):
+        case = {"shape": shape, "layout": "3d", "channels": 1,
+                "stored": "uint8", "gz": False, "scaling": None,
+                "ignore_scaling": False, "minmax": None, "mmap": False,
+                "out": "uint8", "chunk": [1, 1, 1], "encoding": "raw",
+                "block": [8, 8, 8], "acc": "sharded", "bits": bits,
+                "shard_enc": "raw", "shard_enc_data": "raw",
+                "content": "position", "seed": ctx.seed + k,
+                "big_endian": False, "via": "api"}
+        try:
+            check_case(ctx, case)
+        except AssertionError as exc:
+            if type(exc).__name__ != "Violation":
+                raise
+            ctx.violations.append({"sub": "many_shards", "case": case,
+                                   "message": str(exc)})
+            return
+        ctx.record(case, True, ["shards>1024"])
+
+
 def replay(ctx, case):
     check_case(ctx, case)
 
 
 SUBS = [Sub("convert", run, replay, quick=700, thorough=100000,
-            min_per_shard=10)]
+            min_per_shard=10),
+        Sub("many_shards", run_many, replay, quick=1, thorough=3, shards=1)]
